@@ -553,7 +553,7 @@ func c03TableExtents(w *World, r *Report) {
 		} else {
 			continue
 		}
-		cls, _ := c09Classify(w, gw, roles, data, off)
+		cls, _ := c09Classify(w, gw, roles, data, off, nil)
 		if cls == clsM {
 			c03CheckMBRArea(w, r, gw, c, data, off)
 			continue
